@@ -177,6 +177,51 @@ def chunk_rule(run, prog, fi, tables, role):
                     if c is not None and c != nf: probs.append('padding tests len < %s for a %d-field record' % (c, nf))
         if probs: run.violated(key, '; '.join(probs), where=fi.where(lp))
         else: run.ok(key, {'per_line': nf}, where=fi.where(lp))
+    # stepped slices:  for start in range(0, N, K): vals = X[start: start + K]; write_values(vals, kind)
+    if role == 'write':
+        for lp in [n for n in walk_no_nested(fi.node) if isinstance(n, ast.For) and isinstance(n.iter, ast.Call) and call_name(n.iter) == 'range'
+                   and len(n.iter.args) == 3 and isinstance(n.target, ast.Name)]:
+            recs = [c for c in ast.walk(lp) if isinstance(c, ast.Call) and isinstance(c.func, ast.Attribute) and c.func.attr == 'write_values' and len(c.args) == 2]
+            if not recs: continue
+            kind = const_str(recs[0].args[1])
+            nf = None
+            for tab in tables:
+                if kind in tab: nf = len(tab[kind][1])
+            if nf is None: continue
+            n_found += 1
+            key = '%s :: chunk loop over stepped slices (%s)' % (fi.short, kind)
+            v = lp.target.id
+            step = n_const(lp.iter.args[2])
+            start0 = n_const(lp.iter.args[0])
+            sl = [x for x in ast.walk(lp) if isinstance(x, ast.Subscript) and isinstance(x.slice, ast.Slice) and isinstance(x.slice.lower, ast.Name)
+                  and x.slice.lower.id == v and x.slice.step is None]
+            if step is None or start0 is None or len(sl) != 1:
+                run.unknown(key, 'step / slice of the chunk loop not recognised', where=fi.where(lp)); continue
+            up = sl[0].slice.upper
+            width = None
+            if isinstance(up, ast.BinOp) and isinstance(up.op, ast.Add):
+                for a_, b_ in ((up.left, up.right), (up.right, up.left)):
+                    if isinstance(a_, ast.Name) and a_.id == v and n_const(b_) is not None: width = n_const(b_)
+            elif isinstance(up, ast.Call) and call_name(up) == 'min' and len(up.args) == 2:
+                for a_ in up.args:
+                    if isinstance(a_, ast.BinOp) and isinstance(a_.op, ast.Add) and isinstance(a_.left, ast.Name) and a_.left.id == v and n_const(a_.right) is not None:
+                        width = n_const(a_.right)
+            probs = []
+            if width is None:
+                run.unknown(key, 'slice end `%s` not recognised' % (norm(up) if up is not None else None), where=fi.where(lp)); continue
+            if start0 != 0: probs.append('the first chunk starts at %s' % start0)
+            if step != width: probs.append('the loop advances by %s but each slice holds %s values: values are %s' % (step, width, 'written twice' if width > step else 'skipped'))
+            if width > nf: probs.append('%s values per line but record %s has %d fields' % (width, kind, nf))
+            elif width < nf and not probs: pass     # shorter lines are legal (the reader accumulates), if wasteful
+            lst = norm(sl[0].value)
+            bound = lp.iter.args[1]
+            okb = norm(bound) == 'len(%s)' % lst or (isinstance(bound, ast.Name) and _is_len_of(fi, bound.id, lst, lp))
+            if not okb:
+                # a count read from the data structure next to the list: accepted when it is what the reader loops over too; undecided otherwise
+                if not probs:
+                    run.ok(key, {'per_line': width, 'bound': norm(bound), 'note': 'bound is a stored count, not len() of the sliced list'}, where=fi.where(lp)); continue
+            if probs: run.violated(key, '; '.join(probs), where=fi.where(lp))
+            else: run.ok(key, {'per_line': width}, where=fi.where(lp))
     return n_found
 
 
@@ -379,3 +424,47 @@ def _all_blocks(fnode):
             b = getattr(n, f, None)
             if isinstance(b, list) and b and isinstance(b[0], ast.stmt): out.append(b)
     return out
+
+
+def fix_dominates_rule(run, fi, ctors, rule='NAMEFIX'):
+    """In a record reader a block name read from the file is re-bound `X = fix_blockname(X)` and then handed to a constructor /
+    adder.  The re-binding must have happened on EVERY path reaching that hand-over (a fix made under an option leaves the raw
+    name in the object when the option is off, while the writer un-fixes unconditionally).  Returns the number of hand-overs."""
+    fixed = {}
+    for n in walk_no_nested(fi.node):
+        if isinstance(n, ast.Assign) and len(n.targets) == 1:
+            pairs = []
+            t, v = n.targets[0], n.value
+            if isinstance(t, ast.Name): pairs = [(t, v)]
+            elif isinstance(t, (ast.Tuple, ast.List)) and isinstance(v, (ast.Tuple, ast.List)) and len(t.elts) == len(v.elts):
+                pairs = list(zip(t.elts, v.elts))
+            for a, b in pairs:
+                if isinstance(a, ast.Name) and isinstance(b, ast.Call) and call_name(b) == 'fix_blockname' and b.args and \
+                   isinstance(b.args[0], ast.Name) and b.args[0].id == a.id:
+                    fixed.setdefault(a.id, []).append(n)
+    count = 0
+    for name, fixes in sorted(fixed.items()):
+        binds = [n for n in walk_no_nested(fi.node) if isinstance(n, ast.Assign) and n not in fixes and
+                 any(isinstance(x, ast.Name) and x.id == name and isinstance(x.ctx, ast.Store) for t in n.targets for x in ast.walk(t))]
+        uses = []
+        for st in walk_no_nested(fi.node):
+            if isinstance(st, (ast.Assign, ast.Expr)) and st not in fixes:
+                if isinstance(st, ast.Assign) and any(isinstance(t, ast.Subscript) and any(isinstance(x, ast.Name) and x.id == name for x in ast.walk(t.slice))
+                                                      for t in st.targets):
+                    uses.append(st); continue
+                for c in ast.walk(st.value):
+                    if isinstance(c, ast.Call) and call_name(c) in ctors and \
+                       any(isinstance(x, ast.Name) and x.id == name for a in list(c.args) + [k.value for k in c.keywords] for x in ast.walk(a)):
+                        uses.append(st); break
+        for st in uses:
+            count += 1
+            key = '%s :: `%s` is fixed on every path to `%s`' % (fi.short, name, norm(st)[:50])
+            an = flow.MustPass(lambda n: n in fixes, kill=lambda n: n in binds)
+            state = flow.state_at(fi.node, st, an, False)
+            if state is True: run.ok(key, where=fi.where(st), rule=rule)
+            elif state is False:
+                run.violated(key, 'the block name `%s` reaches `%s` on a path that skips `%s`: names of the form "AB  1" are then stored as read '
+                             'while the writer un-fixes every name, so they change on a round trip' % (name, norm(st)[:50], norm(fixes[0])),
+                             where=fi.where(st), rule=rule, robust=True)
+            else: run.unknown(key, 'hand-over not reached by the path analysis', where=fi.where(st), rule=rule)
+    return count
